@@ -24,9 +24,11 @@ import (
 	"bytes"
 	"crypto/ecdsa"
 	"encoding/hex"
+	"encoding/json"
 	"fmt"
 	"math/big"
 	"math/rand"
+	"os"
 	"sort"
 	"strings"
 	"testing"
@@ -37,6 +39,7 @@ import (
 	codectypes "github.com/cosmos/cosmos-sdk/codec/types"
 	simtestutil "github.com/cosmos/cosmos-sdk/testutil/sims"
 	sdk "github.com/cosmos/cosmos-sdk/types"
+	"github.com/ethereum/go-ethereum/accounts/abi"
 	"github.com/ethereum/go-ethereum/common"
 	"github.com/ethereum/go-ethereum/crypto"
 	tronaddress "github.com/fbsobreira/gotron-sdk/pkg/address"
@@ -66,6 +69,7 @@ type objT struct {
 	token  string // batch only
 	cp     func(gid string) ([]byte, error)
 	digest []byte
+	sol    map[string]any // values the relayer submits, by canonical contract parameter name
 }
 
 type chainT struct {
@@ -243,6 +247,90 @@ func gidHex(g string) string {
 	return hex.EncodeToString(b)
 }
 
+// ---- the digest the contract recomputes (monitor) -----------------------------------------------------------------
+// Independent of the Lean model: go-ethereum's ABI packer over the argument list read from the Solidity source
+// (facts C12.solSites), values looked up by the contract parameter names (relayer convention).
+
+type solArgT struct {
+	Expr string `json:"expr"`
+	Ty   string `json:"ty"`
+	Lit  string `json:"lit"`
+}
+
+type solSiteT struct {
+	File string    `json:"file"`
+	Func string    `json:"func"`
+	Args []solArgT `json:"args"`
+}
+
+var solFuncOfKind = map[string]string{"oset": "makeCheckpoint", "batch": "submitBatch", "bcall": "bridgeCallSigHash"}
+
+func loadSolSites() []solSiteT {
+	fp := os.Getenv("VERIF_FACTS")
+	if fp == "" {
+		return nil
+	}
+	bz, err := os.ReadFile(fp)
+	if err != nil {
+		return nil
+	}
+	var facts map[string]json.RawMessage
+	if json.Unmarshal(bz, &facts) != nil {
+		return nil
+	}
+	var sites []solSiteT
+	_ = json.Unmarshal(facts["C12.solSites"], &sites)
+	return sites
+}
+
+func canonName(s string) string {
+	s = strings.TrimPrefix(s, "input.")
+	s = strings.TrimLeft(s, "_")
+	return strings.ToLower(s)
+}
+
+func solDigest(site solSiteT, vals map[string]any) ([]byte, error) {
+	var args abi.Arguments
+	var vs []any
+	for _, a := range site.Args {
+		ty := a.Ty
+		if ty == "literal" {
+			ty = "uint256" // a 64-digit hex literal is encoded as a 32-byte word
+		}
+		t, err := abi.NewType(ty, "", nil)
+		if err != nil {
+			return nil, fmt.Errorf("type %q of %s: %w", a.Ty, a.Expr, err)
+		}
+		args = append(args, abi.Argument{Type: t})
+		if a.Lit != "" {
+			n, ok := new(big.Int).SetString(strings.TrimPrefix(a.Lit, "0x"), 16)
+			if !ok {
+				return nil, fmt.Errorf("literal %s", a.Lit)
+			}
+			if ty == "bytes32" {
+				var w [32]byte
+				n.FillBytes(w[:])
+				vs = append(vs, w)
+			} else {
+				vs = append(vs, n)
+			}
+			continue
+		}
+		v, ok := vals[canonName(a.Expr)]
+		if !ok {
+			return nil, fmt.Errorf("no value for contract argument %s", a.Expr)
+		}
+		vs = append(vs, v)
+	}
+	packed, err := args.Pack(vs...)
+	if err != nil {
+		return nil, err
+	}
+	return crypto.Keccak256(packed), nil
+}
+
+func u256(x uint64) *big.Int { return new(big.Int).SetUint64(x) }
+
 // ---- objects -----------------------------------------------------------------------------------------------------
 
 type hCtx struct {
@@ -250,8 +338,9 @@ type hCtx struct {
 	s    *hx.Suite
 	out  *hx.Out
 	rng  *rand.Rand
-	ctx  sdk.Context
-	big_ int
+	ctx   sdk.Context
+	big_  int
+	sites []solSiteT
 }
 
 func allSafe(xs ...uint64) string {
@@ -269,6 +358,7 @@ func (h *hCtx) storeOracleSet(c *chainT, nonce uint64, safe bool) {
 	os := &types.OracleSet{Nonce: nonce, Height: uint64(rng.Intn(1000))}
 	var parts []string
 	pw := []uint64{nonce}
+	solAddrs, solPowers := []common.Address{}, []*big.Int{}
 	for i := 0; i < n; i++ {
 		a := genAddr20(rng)
 		if i < len(c.oracles) && rng.Intn(2) == 0 {
@@ -279,6 +369,7 @@ func (h *hCtx) storeOracleSet(c *chainT, nonce uint64, safe bool) {
 			p = genSafeU64(rng)
 		}
 		pw = append(pw, p)
+		solAddrs, solPowers = append(solAddrs, common.BytesToAddress(a)), append(solPowers, u256(p))
 		os.Members = append(os.Members, types.BridgeValidator{Power: p, ExternalAddress: c.addrStr(a)})
 		parts = append(parts, fmt.Sprintf("%s:%d", hex.EncodeToString(a), p))
 	}
@@ -289,7 +380,8 @@ func (h *hCtx) storeOracleSet(c *chainT, nonce uint64, safe bool) {
 		return os.GetCheckpoint(gid)
 	}
 	c.k.StoreOracleSet(h.ctx, os)
-	h.emitStore(c, &objT{kind: "oset", nonce: nonce, cp: cp}, fmt.Sprintf("oset %s %d %s", c.name, nonce, joinOrDash(parts)), allSafe(pw...))
+	sol := map[string]any{"oraclesetnonce": u256(nonce), "oracles": solAddrs, "powers": solPowers}
+	h.emitStore(c, &objT{kind: "oset", nonce: nonce, cp: cp, sol: sol}, fmt.Sprintf("oset %s %d %s", c.name, nonce, joinOrDash(parts)), allSafe(pw...))
 }
 
 func joinOrDash(p []string) string {
@@ -310,9 +402,11 @@ func (h *hCtx) storeBatch(c *chainT, token []byte, nonce uint64, safe bool) {
 	c.blockNo++
 	b := &types.OutgoingTxBatch{BatchNonce: nonce, BatchTimeout: timeout, TokenContract: c.addrStr(token), Block: c.blockNo, FeeReceive: c.addrStr(fr)}
 	var parts []string
+	solAm, solDst, solFee := []*big.Int{}, []common.Address{}, []*big.Int{}
 	for i := 0; i < n; i++ {
 		d := genAddr20(rng)
 		am, fee := genAmount(rng), genAmount(rng)
+		solAm, solDst, solFee = append(solAm, am.BigInt()), append(solDst, common.BytesToAddress(d)), append(solFee, fee.BigInt())
 		b.Transactions = append(b.Transactions, &types.OutgoingTransferTx{Id: uint64(i + 1), Sender: helpers.GenAccAddress().String(), DestAddress: c.addrStr(d),
 			Token: types.ERC20Token{Contract: b.TokenContract, Amount: am}, Fee: types.ERC20Token{Contract: b.TokenContract, Amount: fee}})
 		parts = append(parts, fmt.Sprintf("%s:%s:%s", am.String(), hex.EncodeToString(d), fee.String()))
@@ -326,7 +420,9 @@ func (h *hCtx) storeBatch(c *chainT, token []byte, nonce uint64, safe bool) {
 	if err := c.k.StoreBatch(h.ctx, b); err != nil {
 		h.t.Fatalf("StoreBatch: %v", err)
 	}
-	h.emitStore(c, &objT{kind: "batch", nonce: nonce, token: b.TokenContract, cp: cp},
+	sol := map[string]any{"amounts": solAm, "destinations": solDst, "fees": solFee, "batchnonce": u256(nonce), "noncearray[1]": u256(nonce),
+		"tokencontract": common.BytesToAddress(token), "batchtimeout": u256(timeout), "feereceive": common.BytesToAddress(fr)}
+	h.emitStore(c, &objT{kind: "batch", nonce: nonce, token: b.TokenContract, cp: cp, sol: sol},
 		fmt.Sprintf("batch %s %s %s %d %d %s %s", c.name, b.TokenContract, hex.EncodeToString(token), nonce, timeout, hex.EncodeToString(fr), joinOrDash(parts)), allSafe(nonce, timeout))
 }
 
@@ -342,9 +438,11 @@ func (h *hCtx) storeBridgeCall(c *chainT, nonce uint64, safe bool) {
 	bc := &types.OutgoingBridgeCall{Sender: c.addrStr(sd), Refund: c.addrStr(rf), To: c.addrStr(to), Data: hex.EncodeToString(data), Memo: hex.EncodeToString(memo),
 		Nonce: nonce, Timeout: timeout, BlockHeight: uint64(rng.Intn(1000)), EventNonce: evn}
 	var parts []string
+	solTok, solAmt := []common.Address{}, []*big.Int{}
 	for i := 0; i < n; i++ {
 		ct := genAddr20(rng)
 		am := genAmount(rng)
+		solTok, solAmt = append(solTok, common.BytesToAddress(ct)), append(solAmt, am.BigInt())
 		bc.Tokens = append(bc.Tokens, types.ERC20Token{Contract: c.addrStr(ct), Amount: am})
 		parts = append(parts, fmt.Sprintf("%s:%s", hex.EncodeToString(ct), am.String()))
 	}
@@ -355,7 +453,9 @@ func (h *hCtx) storeBridgeCall(c *chainT, nonce uint64, safe bool) {
 		return bc.GetCheckpoint(gid)
 	}
 	c.k.SetOutgoingBridgeCall(h.ctx, bc)
-	h.emitStore(c, &objT{kind: "bcall", nonce: nonce, cp: cp},
+	sol := map[string]any{"sender": common.BytesToAddress(sd), "refund": common.BytesToAddress(rf), "tokens": solTok, "amounts": solAmt,
+		"to": common.BytesToAddress(to), "data": data, "memo": memo, "nonce": u256(nonce), "timeout": u256(timeout), "eventnonce": u256(evn)}
+	h.emitStore(c, &objT{kind: "bcall", nonce: nonce, cp: cp, sol: sol},
 		fmt.Sprintf("bcall %s %d %s %s %s %s %s %d %d %s", c.name, nonce, hex.EncodeToString(sd), hex.EncodeToString(rf), hex.EncodeToString(to),
 			hx.Hex(data), hx.Hex(memo), timeout, evn, joinOrDash(parts)), allSafe(nonce, timeout, evn))
 }
@@ -369,6 +469,25 @@ func (h *hCtx) emitStore(c *chainT, o *objT, op, eq string) {
 	o.digest = d
 	c.objs = append(c.objs, o)
 	h.out.Emit(op, hex.EncodeToString(d)+" "+eq)
+	if eq == "eq" && o.sol != nil {
+		// monitor: the checkpoint fxcore signs is the digest the contract recomputes (uint64 fields within int64)
+		var gidW [32]byte
+		copy(gidW[:], c.gid)
+		o.sol["fxbridgeid"], o.sol["state_fxbridgeid"] = gidW, gidW
+		style := map[bool]string{true: "tron", false: "eth-style"}[c.tron]
+		for _, site := range h.sites {
+			if site.Func != solFuncOfKind[o.kind] {
+				continue
+			}
+			sd, err := solDigest(site, o.sol)
+			h.out.Count("sol-digest:" + site.File + ":" + o.kind)
+			if err != nil {
+				h.out.Violate(fmt.Sprintf("the digest of a stored %s cannot be recomputed from %s:%s abi.encode(...): %v", o.kind, site.File, site.Func, err))
+			} else if !bytes.Equal(sd, d) {
+				h.out.Violate(fmt.Sprintf("checkpoint of a stored %s (%s chain) differs from the digest %s:%s recomputes with abi.encode for the same object and gravity id", o.kind, style, site.File, site.Func))
+			}
+		}
+	}
 	h.out.Count("store:" + o.kind + ":" + map[bool]string{true: "tron", false: "eth"}[c.tron] + ":" + eq)
 }
 
@@ -609,7 +728,7 @@ func (h *hCtx) randomConfirm(c *chainT, others []*chainT) {
 	bridger, ext := or.bridger.String(), or.ext
 	valid := c.sign(o.digest, or.key)
 	classes := []string{"valid", "valid", "valid", "valid", "v27", "malleated", "malleated27", "vbad", "truncated", "overlong", "zero", "other-object", "other-gid",
-		"other-prefix", "other-key", "other-chain-checkpoint", "wrong-bridger", "unknown-ext", "missing-object", "nothex", "empty", "swapped-identity", "random65"}
+		"other-prefix", "other-key", "other-chain-checkpoint", "wrong-bridger", "unknown-ext", "missing-object", "nothex", "empty", "swapped-identity", "random65", "no-prefix"}
 	class := classes[rng.Intn(len(classes))]
 	sig := valid
 	digest := o.digest
@@ -663,6 +782,13 @@ func (h *hCtx) randomConfirm(c *chainT, others []*chainT) {
 		}
 		digest = oc.objs[rng.Intn(len(oc.objs))].digest
 		sig = c.sign(digest, or.key)
+	case "no-prefix":
+		// signature over the bare checkpoint, without the signed-message prefix the contract hashes
+		b, err := crypto.Sign(digest, or.key)
+		if err != nil {
+			return
+		}
+		sig = b
 	case "other-prefix":
 		oc := &chainT{name: c.name, tron: !c.tron}
 		sig = oc.sign(digest, or.key)
@@ -891,9 +1017,23 @@ func (h *hCtx) realTxs() {
 	h.out.Count(fmt.Sprintf("tx:plain-signed-by-bridger:code=%d", code))
 	if code != 0 || !stored(sets[3].Nonce) {
 		h.out.Stats.Extra["honest_tx_log"] = log
-		h.out.ViolateWith("harness: the honest confirm transaction (signed by the oracle's bridger, valid signature) was not accepted", []string{log})
+		h.out.ViolateWith("a confirm transaction signed by the oracle's bridger carrying the oracle's valid signature over the stored object was rejected (no confirmation can be stored)", []string{log})
 	}
 	s.Ctx = s.App.GetContextForFinalizeBlock(nil)
+	// 5. in-process only (not a transaction): the router called with a wrapper whose Any was built in memory.  The wrapper's
+	// bridger_address is never compared with the inner one; recorded, not a violation (no transaction reaches this).
+	os5 := &types.OracleSet{Nonce: 900009, Height: 3, Members: []types.BridgeValidator{{Power: 100, ExternalAddress: extAddr}}}
+	cctx, _ := s.Ctx.CacheContext()
+	k.StoreOracleSet(cctx, os5)
+	any5, _ := codectypes.NewAnyWithValue(mk(os5, y))
+	w5 := &types.MsgConfirm{ChainName: name, BridgerAddress: x, Confirm: any5}
+	_, err5 := s.App.MsgServiceRouter().Handler(w5)(cctx, w5)
+	res5 := "rejected"
+	if err5 == nil && k.GetOracleSetConfirm(cctx, os5.Nonce, oracle) != nil {
+		res5 = "stored"
+	}
+	h.out.Count("inproc:wrapper-mismatch:" + res5)
+	h.out.Stats.Extra["inproc_wrapper_bridger_mismatch"] = res5
 }
 
 // ---- test --------------------------------------------------------------------------------------------------------
@@ -905,6 +1045,8 @@ func TestC12(t *testing.T) {
 	defer out.Close("correspondence: real GetCheckpoint (eth-style x2, tron) vs Keccak-256 of the model's ABI pre-image from the regenerated Go/tron/Solidity layouts; real confirm handlers through the message router vs the handler model (result kind + stored confirms); monitors: stored confirm re-verifies under the oracle's registered key and bridger, one entry per oracle and object never replaced, transactions not signed by the oracle's bridger store nothing. non-trivial = distinct (object kind, signature class, outcome, chain style)")
 
 	s := hx.NewSuite(t, 1)
+	sites := loadSolSites()
+	out.Stats.Extra["solidity_sites_loaded"] = len(sites)
 	nSeq := hx.N(40, 300)
 	big_ := 40
 	nObj, nConf := 10, 70
@@ -914,7 +1056,7 @@ func TestC12(t *testing.T) {
 	for q := 0; q < nSeq; q++ {
 		out.Reset()
 		cctx, _ := s.Ctx.CacheContext()
-		h := &hCtx{t: t, s: s, out: out, rng: rng, ctx: cctx, big_: big_}
+		h := &hCtx{t: t, s: s, out: out, rng: rng, ctx: cctx, big_: big_, sites: sites}
 		chains := []*chainT{
 			h.setupChain("eth", s.App.EthKeeper, 1+rng.Intn(4)),
 			h.setupChain("bsc", s.App.BscKeeper, 1+rng.Intn(3)),
